@@ -45,7 +45,7 @@ prop('C05', prefix=['c05'],
      outside='longer chains and cycles, ranges, names, spills and dynamic arrays (two-phase evaluation), cross-sheet dependencies, functions, '
              'the converse "shows #CIRC! only if on a cycle" beyond these cells')
 prop('C06', prefix=['c06'],
-     bounds='two input cells A1, B1, each a number / boolean / empty / the text abc / the error #N/A (solver chooses), one formula in C1 typed through the real '
+     bounds='two input cells A1, B1, each a number / boolean / empty / the text abc / the error #N/A (solver chooses; for + - and the comparisons also the empty text and the error #DIV/0!), one formula in C1 typed through the real '
             'parser and evaluated by the real evaluator from MIR: A1+B1 and A1-B1 with any two finite f64 (overflow -> #NUM!); A1*B1, A1/B1, A1%, A1&B1 and the six '
             'comparisons with numbers from {0, 1.5, -2, 1e200, 4}; -A1, IF(A1,B1,7), AND, OR, NOT, SUM(A1:B1), COUNT, COUNTA, ISNUMBER, ISTEXT, ISBLANK, '
             'IFERROR(A1,9) with any finite f64; ABS, MIN(A1:B1), MAX, AVERAGE, ROUND(A1,0), LEN, CONCAT(A1,B1) with the number menu; reference rules written in the harness: booleans count as 1/0 and empty as 0 in arithmetic, text is #VALUE!, '
